@@ -121,7 +121,8 @@ func degenerate(ps gen.PathSpec) (spike bool, mult int) {
 // nearTouch reports whether a vertex of the path lies within 3e-8 (the sweep snaps to a grid of 1e-8) of an edge or
 // vertex that it is not part of, without lying exactly on it.
 func nearTouch(ps gen.PathSpec) bool {
-	segs, err := oracle.Decode(ps.Build().Data())
+	// the sweep works on the library's own flattening of curved segments: its vertices count too
+	segs, err := oracle.Decode(ps.Build().Flatten(canvas.Tolerance).Data())
 	if err != nil {
 		return false
 	}
@@ -129,7 +130,10 @@ func nearTouch(ps gen.PathSpec) bool {
 	for _, s := range segs {
 		vs = append(vs, s.End())
 	}
-	for _, pl := range oracle.Sample(segs, 24) {
+	if len(vs) > 3000 {
+		return false
+	}
+	for _, pl := range oracle.Sample(segs, 1) {
 		n := len(pl.P)
 		for i := 0; i < n; i++ {
 			a, b := pl.P[i], pl.P[(i+1)%n]
